@@ -22,7 +22,7 @@ RULE = (
 )
 REQUIRED = ["automorphism_count_checked", "orbits_checked", "nontrivial_groups", "disconnected_graphs",
             "autoest_coarsening_checked", "autoest_strictly_coarser", "dedup_contract_evals", "dedup_dropped_something",
-            "pruning_differential_runs", "pruning_removed_matches", "pruning_symmetry_reference_checked", "graphs_with_omitted_default_attributes", "anchor_read_first_checked"]
+            "pruning_differential_runs", "pruning_removed_matches", "pruning_symmetry_reference_checked", "graphs_with_omitted_default_attributes", "anchor_read_first_checked", "empty_key_list_matters"]
 ASSUMPTIONS = [
     "Automorphism defaults: missing element '*', charge 0, order 1.0 (the class's documented defaults)",
     "AutoEst compared against the automorphism group of the whole graph (component swaps included: WL colours are invariant under them)",
@@ -71,6 +71,25 @@ def check_graph(ctx, G, tag, key, with_est=True):
         au = B.automorphisms(c, node_ok, edge_ok)
         want_n *= len(au)
         want_orb |= B.orbits_from(list(c.nodes), au)
+    if G.number_of_nodes() <= 7 and ctx.rng.random() < 0.3:
+        # an explicitly empty key list means "no labels of that kind", not "the default labels"
+        for nk_, ek_, nm_ in (([], None, "node_attr_keys=[]"), (None, [], "edge_attr_keys=[]")):
+            node_ok2 = (lambda a, b: True) if nk_ == [] else node_ok
+            edge_ok2 = (lambda a, b: True) if ek_ == [] else edge_ok
+            w2 = 1
+            for c in comps:
+                w2 *= len(B.automorphisms(c, node_ok2, edge_ok2))
+            kw2 = {}
+            if nk_ is not None:
+                kw2["node_attr_keys"] = nk_
+            if ek_ is not None:
+                kw2["edge_attr_keys"] = ek_
+            ctx.count("empty_key_list_checked")
+            if w2 != want_n:
+                ctx.count("empty_key_list_matters")
+            got2 = Automorphism(G, **kw2).n_automorphisms
+            if got2 != w2:
+                ctx.violation("automorphism-count", {**wit, "option": nm_}, f"Automorphism({nm_}).n_automorphisms={got2}; ignoring those labels the graph has {w2}")
     if len(comps) > 1:
         # a fresh analysis object whose anchor is the first thing read
         anc0 = Automorphism(G).anchor_component
